@@ -131,6 +131,7 @@ type World struct {
 	Starve string
 	pools  []poolResetter
 	endNS  int64
+	ended  bool
 }
 
 type poolResetter interface{ SimReset() }
@@ -617,6 +618,7 @@ func (w *World) Run(main func()) {
 		t.wake <- struct{}{}
 	}
 	w.endNS = int64(time.Since(w.start))
+	w.ended = true
 	w.kill()
 }
 
@@ -723,7 +725,7 @@ func (w *World) Stats() Stats {
 	w.mu.Lock()
 	defer w.mu.Unlock()
 	ns := w.endNS
-	if ns == 0 && !w.start.IsZero() {
+	if !w.ended && !w.start.IsZero() {
 		ns = int64(time.Since(w.start))
 	}
 	return Stats{Steps: w.step, SimNS: ns, Tasks: len(w.tasks), Preempts: w.preempts, MultiReady: w.multiReady, Anon: w.anon}
